@@ -401,6 +401,7 @@ Definition mkdir_all (s : fsys) (v : view) (path : str) (perm : N) : fsys * res 
 (* OpenFile, memfs.go:515.  Returns the new node state and, on success, the handle fields. *)
 Definition open_file (s : fsys) (v : view) (view_ix : nat) (name : str) (flag perm : N)
   : fsys * (res + handle) :=
+  match name with [] => (s, inl (RFail ENoSuchFile)) | _ =>
   let om := to_open_mode flag in
   let r := search_node s v name (if has om OpenCreateExcl then SlLstat else SlEval) in
   let e := sr_err r in
@@ -449,7 +450,8 @@ Definition open_file (s : fsys) (v : view) (view_ix : nat) (name : str) (flag pe
     else match sr_child r with
          | Some c => open_existing c
          | None => (s, inl RPanic)
-         end.
+         end
+  end.
 
 (* Remove, memfs.go:654 *)
 Definition remove (s : fsys) (v : view) (name : str) : fsys * res :=
